@@ -273,6 +273,11 @@ def check_named_vs_precomputed(spec):
     _cmp(fails, "proba:named-vs-precomputed", "predict_proba", [("proba", p1)], [("proba", p2)])
     sc1, sc2 = m1.score(X), m2.score(X, A)
     _cmp(fails, "score:named-vs-precomputed", f"score {sc1!r} (named) vs {sc2!r} (precomputed)", [("s", sc1)], [("s", sc2)])
+    # the same through fit_predict (the matrix handed as y must reach training there as well)
+    lab_fp = np.asarray(fw.make(e, hp).fit_predict(X, A))
+    if not np.array_equal(lab_fp, np.asarray(m1.labels_)):
+        fails.append({"key": "fit_predict:named-vs-precomputed", "what": "fit_predict(X, matrix) with a precomputed affinity gives other labels than "
+                      "fit with the named affinity", "expected": np.asarray(m1.labels_).tolist(), "actual": lab_fp.tolist()})
     # a named affinity does not use y
     m3 = fw.make(e, hn).fit(X, junk)
     _cmp(fails, "fit:named-ignores-y", "fit(X, y) with a named affinity must not use y", s1, fw.fitted_state(m3))
@@ -470,6 +475,19 @@ def check_kauri(spec):
         _cmp(fails, "kauri:named-vs-precomputed", "Kauri tree and labels with named vs precomputed kernel", fw.kauri_state(m1), fw.kauri_state(m2))
         s1, s2 = m1.score(X), m2.score(X, A)
         _cmp(fails, "kauri:score", f"Kauri score {s1!r} (named) vs {s2!r} (precomputed)", [("s", float(s1))], [("s", float(s2))])
+        # the same through fit_predict: the matrix handed as y must reach the search there too
+        import warnings as _w
+        with _w.catch_warnings(record=True) as wl:
+            _w.simplefilter("always")
+            m4 = Kauri(kernel="precomputed", **c)
+            lab4 = m4.fit_predict(X, A)
+        if any("precomputed kernel was supposed" in str(w.message) for w in wl):
+            fails.append({"key": "kauri:fit_predict-drops-matrix", "what": "Kauri(kernel='precomputed').fit_predict(X, K) warns that no matrix was "
+                          "passed although K was given", "expected": "the matrix is used", "actual": "fallback to the linear kernel"})
+        _cmp(fails, "kauri:fit_predict-precomputed", "Kauri.fit_predict(X, K) vs the named kernel (tree and labels)", fw.kauri_state(m1), fw.kauri_state(m4))
+        if not np.array_equal(np.asarray(lab4), np.asarray(m1.labels_)):
+            fails.append({"key": "kauri:fit_predict-precomputed", "what": "labels returned by Kauri.fit_predict(X, K) differ from those of the named kernel",
+                          "expected": np.asarray(m1.labels_).tolist(), "actual": np.asarray(lab4).tolist()})
         m3 = Kauri(kernel=spec["name"], **c).fit(X, junk)
         _cmp(fails, "kauri:named-ignores-y", "Kauri.fit(X, y) with a named kernel must not use y", fw.kauri_state(m1), fw.kauri_state(m3))
         _cmp(fails, "kauri:named-ignores-y", "Kauri.score(X, y) with a named kernel must not use y", [("s", float(s1))], [("s", float(m1.score(X, junk)))])
